@@ -1,4 +1,14 @@
 ------------------------------ MODULE GF2Poly ------------------------------
+(* INTERFACE SUMMARY (stable; EXTENDS GF2Poly).  A polynomial over GF(2) = little-endian sequence of 16-bit limbs
+   (bit k of limb i = coefficient of x^(16(i-1)+k)), i.e. exactly a jLimbs16 array; <<>> = 0; trailing zero limbs
+   allowed (compare with PEq, or PNorm / PFit(a,n) first).
+   constants   PZero POne PX  PMonomial(k)       tests  PIsZero(a)  PEq(a,b)  PDeg(a) (-1 for 0)  PBit(a,k)  PWeight(a)
+   arithmetic  PAdd(a,b)  PMul(a,b)  PSqr(a)  PMulLimb(a,w)  PShl(a,k)  PShr(a,k)  PTrunc(a,k) (mod x^k)
+               PDivMod(a,b) = <<q,r>>  PDiv  PMod  PMulMod(a,b,m)
+   Euclid      PGCD(a,b)   PExGCD(a,b) = <<d,u,v>> with d = a*u + b*v   PInvMod(a,m) (0 if not invertible)
+   tests       PIsIrred(f) (Rabin)   PIsIrredByDef(f) (trial division, small degrees)
+   sequences   BerlekampMassey(s) = <<C,L>>   PMinPolySeq(s)  (s = TLA+ sequence of 0/1)
+   helpers     PRng(lo,hi)  PStrict(s)  PGet(a,i)  PNorm(a)  PFit(a,n) *)
 (* Polynomials over GF(2) for TLC.  A polynomial is a little-endian sequence of 16-bit limbs
    (bit k of limb i is the coefficient of x^(16(i-1)+k)) - exactly the arrays logged by jLimbs16.
    Trailing zero limbs are allowed; <<>> is the zero polynomial.  Loops are FoldLeft.
